@@ -80,7 +80,8 @@ def generate(seed: int, tier: str):
             chunks = None
         sc["stack"] = {"n": n, "shape": shape, "ncomp": ncomp, "ncls": ncls, "gap": rng.choice([1.5, 2.0, 3.0]), "noise": rng.choice([0.0, 0.02, 0.05, 0.1]),
                        "mask": rng.choice(["none", "none", "binary", "soft", "softpos"]), "container": container, "chunks": chunks, "data_seed": rng.randrange(1 << 30),
-                       "kseed": rng.choice([0, 1, rng.randrange(100)]), "planted": (rng.random() < 0.6) and not few}
+                       "kseed": rng.choice([0, 1, rng.randrange(100)]), "planted": (rng.random() < 0.6) and not few,
+                       "dtype": rng.choice(["float32", "float32", "float64"]), "sub_seed": rng.randrange(1 << 30)}
     else:
         b = rng.choice([7, 8, 9])
         n = rng.randint(8, 24)
@@ -146,7 +147,7 @@ def make_stack(p):
     X = X / safe
     X = X + rg.normal(size=(n, D)) * p["noise"] * (10.0 / p["gap"] ** (k - 1)) / np.sqrt(max(n, 1)) * 0.5
     X = X + rg.normal(size=D) * 3.0  # common offset: PCA must centre
-    return X.reshape((n,) + shape).astype(np.float32), mask, labels
+    return X.reshape((n,) + shape).astype(np.dtype(p.get("dtype", "float32"))), mask, labels
 
 
 def exact_pca(X, mask, ncomp):
@@ -179,6 +180,14 @@ def run_stack(sc, sim, np_seed, eager=False):
         clf.run()
         tr = np.asarray(clf.get_transform())
         out = {"sv": np.asarray(clf.pca.singular_values_), "comp": np.asarray(clf.pca.components_), "tr": tr, "labels": np.asarray(clf.labels)}
+        # projections stay attached to their images: any selection / order of images, and the stack fed back through transform / predict
+        sr = np.random.default_rng(p.get("sub_seed", 0))
+        sel = [int(i) for i in sr.permutation(X.shape[0])[: max(1, min(X.shape[0], int(sr.integers(1, 8))))]]
+        out["sel"] = sel
+        out["tr_sel"] = np.asarray(clf.get_transform(sel))
+        again = stack if not isinstance(stack, np.ndarray) else da.from_array(X, chunks=(max(1, X.shape[0] // 3),) + X.shape[1:])
+        out["tr_again"] = np.asarray(clf.transform(again))
+        out["pred"] = np.asarray(clf.predict(again))
     if digest(X) != Xsum:
         raise V("inputs-modified", "PcaClassifier", "the input stack was modified")
     return out, X, mask, labels
@@ -206,6 +215,13 @@ def check_stack(sc, sim):
     sv = out["sv"]
     if sv.shape != (k,) or out["comp"].shape != (k, Ac.shape[1]) or out["tr"].shape != (X.shape[0], k) or out["labels"].shape != (X.shape[0],):
         raise V("pca-mismatch", "PcaClassifier", f"shapes: sv {sv.shape}, components {out['comp'].shape}, transform {out['tr'].shape}, labels {out['labels'].shape}")
+    scale_ = max(float(np.abs(out["tr"]).max()), 1e-30)
+    if out["tr_sel"].shape != (len(out["sel"]), k) or np.abs(out["tr_sel"] - out["tr"][out["sel"]]).max() > 1e-4 * scale_:
+        raise V("projections-detached", "get_transform", f"get_transform({out['sel']}) does not return the projections of those images in that order")
+    if out["tr_again"].shape != out["tr"].shape or np.abs(out["tr_again"] - out["tr"]).max() > 1e-4 * scale_:
+        raise V("projections-detached", "transform", "transform(stack) differs from the projections of the fitted stack")
+    if out["pred"].tolist() != out["labels"].tolist():
+        raise V("projections-detached", "predict", "predict(stack) differs from the labels of the fitted stack")
     rel = np.abs(sv - s0[:k]) / s0[:k]
     if rel.max() > 1e-3:
         raise V("pca-mismatch", "singular_values", f"singular values {sv} vs exact {s0[:k]} (rel err {rel.max():.3g}; spectrum {np.round(s0[:k + 2], 3)})")
